@@ -161,7 +161,7 @@ def mutate_axis(e, rng):
     if c < 0.5: return ("Sum", (b, t, a + 1))
     return ("Sum", (b, mutate_axis(t, rng), a))
 
-def axis_level(tier, seed, violations, cov):
+def axis_level(tier, seed, violations, cov, jobs):
     rng = random.Random(seed * 1000003 + 6)
     types = U.all_types()
     quick = tier == "quick"
@@ -187,25 +187,28 @@ def axis_level(tier, seed, violations, cov):
         pats.append((ts, vax))
     # ---- the generator itself: everything it calls "typed" must satisfy has_type
     tvals = [([a], [U.tcode(t)]) for t, a in singles] + [(vax, [U.tcode(t) for t in ts]) for ts, vax in pats]
-    codes, nk = run_model(TYPED, tvals, seed=seed, tag="c06typed", coq_sample=20)
-    for v, c in zip(tvals, codes):
-        if c: raise AssertionError("C06 harness: generator produced an ill-typed pattern (code %d): %r" % (c, v))
-    kern = nk
-    hist = {}
-    def run(cf, vals, what, describe, tag, typed_flags=None):
-        nonlocal kern
+    hist = {}; kern = [0]
+    def typed_done(codes, nk):
+        kern[0] += nk
+        for v, c in zip(tvals, codes):
+            if c: raise AssertionError("C06 harness: generator produced an ill-typed pattern (code %d): %r" % (c, v))
+    jobs.append((TYPED, tvals, "c06typed", 15, typed_done))
+    def run(cf, vals, what, describe, tag):
         if not vals: return
-        codes, nk = run_model(cf, vals, seed=seed, tag=tag, coq_sample=25)
-        kern += nk
         hist[what] = len(vals)
-        for v, c in zip(vals, codes):
-            if c == 0: continue
-            oracle = c < 10
-            violations.append(Violation(
-                "%s: %s (verdict %d)" % (what, describe(c), c), case=dict(kind=cf.kind, value=v),
-                observed=v[-1], oracle=(cf.fn + " (brute-force specification)") if oracle else None,
-                corr="corr:%s (Model.Axis vs fggs.indices)" % what, failing_input_found=oracle,
-                call="fggs.indices Axis.%s" % what))
+        def done(codes, nk):
+            kern[0] += nk
+            for v, c in zip(vals, codes):
+                if c == 0: continue
+                oracle = c < 10
+                violations.append(Violation(
+                    "%s: %s (verdict %d)" % (what, describe(c), c), case=dict(kind=cf.kind, value=v),
+                    observed=v[-1], oracle=(cf.fn + " (brute-force specification)") if oracle else None,
+                    corr="corr:%s (Model.Axis vs fggs.indices)" % what, failing_input_found=oracle,
+                    call="fggs.indices Axis.%s" % what))
+        jobs.append((cf, vals, tag, 20, done))
+    envs = lambda axes: math.prod(n for _, n in U.fv_list(axes))
+    ENVB = 600 if quick else 3000
     # numel / stride / fv / prime_factors
     vals = []
     for t, a in singles:
@@ -214,7 +217,7 @@ def axis_level(tier, seed, violations, cov):
             violations.append(Violation("Axis.numel/stride/fv/prime_factors raised %r" % (ex,), case=dict(axis=a), corr="corr:basic", call="Axis.stride"))
     for ts, vax in pats[:400 if quick else 4000]:
         a = U.a_product(vax) if rng.random() < 0.5 else ("Sum", (1, U.a_product(vax), 2))
-        if len(U.fv_list([a])) and math.prod(n for _, n in U.fv_list([a])) > 400: continue
+        if envs([a]) > 300: continue
         try: vals.append(impl_basic(a))
         except Exception as ex:
             violations.append(Violation("Axis.numel/stride/fv/prime_factors raised %r" % (ex,), case=dict(axis=a), corr="corr:basic", call="Axis.stride"))
@@ -266,7 +269,7 @@ def axis_level(tier, seed, violations, cov):
         v1, pool = U.gen_pattern(ts, rng, pool)
         v2, pool = U.gen_pattern(ts, rng, pool if rng.random() < 0.3 else U.Pool(30))
         pairs.append((v1, v2))
-    pairs = [p for p in pairs if math.prod(n for _, n in U.fv_list(p[0] + p[1])) <= 3000]
+    pairs = [p for p in pairs if envs(p[0] + p[1]) <= ENVB]
     uvals, avals = [], []
     for es, fs in pairs:
         try: uvals.append(impl_unify(es, fs, True))
@@ -279,7 +282,7 @@ def axis_level(tier, seed, violations, cov):
     for _ in range(120 if quick else 1500):
         t1 = rng.choice(types[1:]); t2 = rng.choice(types[1:])
         a, _ = U.gen_pattern([t1], rng); b, _ = U.gen_pattern([t2], rng, U.Pool(30))
-        if math.prod(n for _, n in U.fv_list(a + b)) > 3000: continue
+        if envs(a + b) > ENVB: continue
         try: uvals.append(impl_unify(a, b, False))
         except ZeroDivisionError: pass
         except Exception as ex:
@@ -313,7 +316,7 @@ def axis_level(tier, seed, violations, cov):
             for e in vax: cvals.append(impl_clone(e, sub))
         fs = list(vax) + ([U.UNIT] if rng.random() < 0.3 else [])
         rng.shuffle(fs)
-        pvals.append(impl_product(fs))
+        if envs(fs) <= 300: pvals.append(impl_product(fs))
     run(FRESHEN, fvals, "freshen", lambda c: {1: "not a consistent fresh renaming", 10: "differs from model", 11: "rename dict differs from model"}.get(c, "?"), "c06fresh")
     run(ALPHA, alvals, "alpha", lambda c: "verdict differs from model", "c06alpha")
     run(CLONE, cvals, "clone", lambda c: {1: "clone does not evaluate like the axis under the substitution", 10: "differs from model", 13: "model failed"}.get(c, "?"), "c06clone")
@@ -321,6 +324,17 @@ def axis_level(tier, seed, violations, cov):
     cov["axis_level"] = dict(cases=hist, single_axes_exhaustive=len(singles), two_dim_patterns_enumerated=n_exh_pats,
                              same_type_axis_pairs_enumerated=n_exh_pairs, kernel_reevaluated=kern)
     return sum(hist.values()), len({repr(v[:2]) for v in uvals if any(e[0] != "Phys" for e in v[0] + v[1])})
+
+def run_jobs(jobs, seed):
+    """evaluate all model-side jobs concurrently (each is subprocess-bound: extracted driver + a coqc sample)"""
+    from concurrent.futures import ThreadPoolExecutor
+    def one(j):
+        cf, vals, tag, sample, done = j
+        return run_model(cf, vals, seed=seed, tag=tag, coq_sample=sample)
+    with ThreadPoolExecutor(max_workers=6) as ex:
+        results = list(ex.map(one, jobs))
+    for (cf, vals, tag, sample, done), (codes, nk) in zip(jobs, results):
+        done(codes, nk)
 
 # ============================================================================ (iii) monitor
 class Monitor:
@@ -362,12 +376,12 @@ def tensor_level(tier, seed, violations, cov):
 def run(tier, seed):
     violations = []
     cov = {}
-    n_axis, d_axis = axis_level(tier, seed, violations, cov)
+    jobs = []
+    n_axis, d_axis = axis_level(tier, seed, violations, cov, jobs)
     n_ops, d_ops = tensor_level(tier, seed, violations, cov)
     # (ii') the operations that have a Coq model: implementation result vs dense specification vs model
     ptvals = cov.pop("_ptvals", [])
-    if ptvals:
-        codes, nkp = run_model(PTCHECK, [v for v, _ in ptvals], seed=seed, tag="c06pt", coq_sample=12)
+    def pt_done(codes, nkp):
         hist = {}
         for (v, desc), c in zip(ptvals, codes):
             hist[c] = hist.get(c, 0) + 1
@@ -384,21 +398,27 @@ def run(tier, seed):
                                             case=desc, corr="corr:pt_check (Model.PTensor vs fggs.indices.PatternedTensor)", failing_input_found=False,
                                             call="PatternedTensor.%s" % desc["op"]))
         cov["tensor_level"]["model_checked"] = dict(cases=len(ptvals), verdicts=hist, kernel_reevaluated=nkp)
+    if ptvals: jobs.append((PTCHECK, [v for v, _ in ptvals], "c06pt", 12, pt_done))
     # (iii) judge everything the monitor saw
     vals = [v for v in MON.seen.values() if v[0] != "malformed"]
     for v in MON.seen.values():
         if v[0] == "malformed":
             violations.append(Violation("PatternedTensor with malformed axes constructed inside the library: %s" % v[1], case=None,
                                         corr="representation invariant monitor", failing_input_found=False))
-    codes, nk = run_model(REPR, vals, seed=seed, tag="c06repr", coq_sample=40)
-    for v, c in zip(vals, codes):
-        if c:
-            violations.append(Violation("representation invariant broken (%s)" % {1: "sizes / paxes = free axes of vaxes / no size-1 physical axis", 2: "index map not injective"}.get(c, c),
-                                        case=dict(psize=v[0], paxes=v[1], vaxes=v[2]), oracle="repr_inv_b", corr="C06_repr_inv_injective / monitor",
-                                        call="PatternedTensor.__post_init__ (FGGS_VERIF=1 monitor)"))
+    mon_k = [0]
+    def repr_done(codes, nk):
+        mon_k[0] = nk
+        for v, c in zip(vals, codes):
+            if c:
+                violations.append(Violation("representation invariant broken (%s)" % {1: "sizes / paxes = free axes of vaxes / no size-1 physical axis", 2: "index map not injective"}.get(c, c),
+                                            case=dict(psize=v[0], paxes=v[1], vaxes=v[2]), oracle="repr_inv_b", corr="C06_repr_inv_injective / monitor",
+                                            call="PatternedTensor.__post_init__ (FGGS_VERIF=1 monitor)"))
+    if vals: jobs.append((REPR, vals, "c06repr", 30, repr_done))
+    run_jobs(jobs, seed)
+    cov["axis_level"]["kernel_reevaluated"] = cov["axis_level"]["kernel_reevaluated"][0]
     cov.update(evaluations=n_axis + n_ops + len(vals), distinct_nontrivial=d_axis + d_ops,
                rule="axis level: distinct (es, fs) pairs with at least one non-physical axis; tensor level: distinct (operation, operand patterns) instances whose operands are not all dense",
-               monitor=dict(constructions_seen=MON.count, distinct_representations=len(vals), kernel_reevaluated=nk),
+               monitor=dict(constructions_seen=MON.count, distinct_representations=len(vals), kernel_reevaluated=mon_k[0]),
                open_items=OPEN_ITEMS)
     cov.setdefault("samples", [])
     return cov, violations
